@@ -14,7 +14,9 @@ Positions == {"ret", "or", "step", "bound", "start", "whilecond", "ifcond", "eli
               "unwrapsrc", "fieldarg", "indexexpr", "retlist", "and", "not"}
 
 (* second family: `modify` of a captured variable whose declared type is wider than the type of the value stored *)
-ModKinds == {"mod_int", "mod_opt_set", "mod_opt_clear", "mod_opt_swap", "mod_str_longer", "mod_str_shorter", "mod_str_empty", "mod_bool"}
+ModKinds == {"mod_int", "mod_opt_set", "mod_opt_clear", "mod_opt_swap", "mod_str_longer", "mod_str_shorter", "mod_str_empty", "mod_bool", "mod_alias"}
+(* ... and `modify` of a captured variable that holds a closure, with a new closure made by the same function literal *)
+ClosKinds == {"mod_closure"}
 
 (* third family: an escaped closure driven by a built-in that calls it once per element (map / filter): every call, *)
 (* not only the first, must see the captured variables                                                             *)
@@ -26,7 +28,7 @@ RecvKinds == {"rv_idx_read", "rv_idx_write", "rv_idx_opwrite", "rv_push", "rv_le
               "rv_idx_expr", "rv_arg", "rv_is"}
 
 VARIABLES pos, modx
-Init == pos \in Positions \cup ModKinds \cup DrvKinds \cup RecvKinds /\ modx \in BOOLEAN
+Init == pos \in Positions \cup ModKinds \cup ClosKinds \cup DrvKinds \cup RecvKinds /\ modx \in BOOLEAN
 Next == UNCHANGED <<pos, modx>>
 
 FT == "fn() -> int"
@@ -66,13 +68,14 @@ Body(p) ==
 BxClass == [k |-> "class", n |-> "Bx", export |-> FALSE, fields |-> <<[n |-> "v", ty |-> "int"]>>,
             ctor |-> <<[ps |-> <<P("v0", "int")>>, b |-> <<Assign(Fld(Self, "v"), "=", V("v0"))>>]>>, methods |-> <<>>]
 
-ModTy(k) == CASE k = "mod_int" -> "int" [] k \in {"mod_opt_set", "mod_opt_clear", "mod_opt_swap"} -> "int?"
+ModTy(k) == CASE k = "mod_int" -> "int" [] k = "mod_alias" -> "Count" [] k \in {"mod_opt_set", "mod_opt_clear", "mod_opt_swap"} -> "int?"
               [] k = "mod_bool" -> "bool" [] OTHER -> "str"
-ModInit(k) == CASE k = "mod_int" -> I(1) [] k = "mod_opt_set" -> Nil [] k = "mod_opt_clear" -> I(4) [] k = "mod_opt_swap" -> I(4)
+ModInit(k) == CASE k \in {"mod_int", "mod_alias"} -> I(1) [] k = "mod_opt_set" -> Nil [] k = "mod_opt_clear" -> I(4) [] k = "mod_opt_swap" -> I(4)
                 [] k = "mod_str_longer" -> S("ab") [] k = "mod_str_shorter" -> S("abcd") [] k = "mod_str_empty" -> S("ab") [] k = "mod_bool" -> B(FALSE)
-ModNew(k) == CASE k = "mod_int" -> I(2) [] k = "mod_opt_set" -> I(5) [] k = "mod_opt_clear" -> Nil [] k = "mod_opt_swap" -> I(6)
+ModNew(k) == CASE k \in {"mod_int", "mod_alias"} -> I(2) [] k = "mod_opt_set" -> I(5) [] k = "mod_opt_clear" -> Nil [] k = "mod_opt_swap" -> I(6)
                [] k = "mod_str_longer" -> S("abcd") [] k = "mod_str_shorter" -> S("a") [] k = "mod_str_empty" -> S("") [] k = "mod_bool" -> B(TRUE)
 ModProg ==
+    (IF pos = "mod_alias" THEN <<[k |-> "alias", n |-> "Count", ty |-> "int", export |-> FALSE]>> ELSE <<>>) \o
     (IF modx THEN <<LetT("x", ModTy(pos), ModNew(pos))>> ELSE <<>>) \o
     <<Let("mk", Fn("mk", <<>>, FT, <<LetT("x", ModTy(pos), ModInit(pos)),
                                      Ret(Fn("lit", <<>>, "int", <<Print(X),
@@ -139,7 +142,22 @@ RvProg ==
       Print(Call(V("f"), <<>>)), Print(Call(V("o"), <<>>)), Print(Call(V("use2"), <<V("f")>>)), Print(Call(V("o"), <<>>))>>
     \o (IF modx THEN <<Print(V("xs")), Print(Fld(V("bx"), "v"))>> ELSE <<>>) \o <<Print(S("end"))>>
 
+ClosProg ==
+    (IF modx THEN <<Let("cur", Fn("zero", <<>>, "int", <<Ret(I(0))>>))>> ELSE <<>>) \o
+    <<Let("mkc", Fn("mkc", <<>>, FT, <<Let("n", I(0)), Ret(Fn("cnt", <<>>, "int", <<Modify("n", Bin("+", V("n"), I(1))), Ret(V("n"))>>))>>)),
+      Let("mk", Fn("mk", <<>>, "[" \o FT \o "...]",
+                   <<Let("cur", Call(V("mkc"), <<>>)),
+                     Let("step", Fn("step", <<>>, "int", <<Ret(Call(V("cur"), <<>>))>>)),
+                     Let("reset", Fn("reset", <<>>, "int", <<Modify("cur", Call(V("mkc"), <<>>)), Ret(I(0))>>)),
+                     Ret(List(<<V("step"), V("reset")>>))>>)),
+      Let("fs", Call(V("mk"), <<>>)), Let("z0", I(0)), Let("z1", I(1)),
+      Let("step", Idx(V("fs"), V("z0"))), Let("reset", Idx(V("fs"), V("z1"))),
+      Print(Call(V("step"), <<>>)), Print(Call(V("step"), <<>>)), Print(Call(V("reset"), <<>>)),
+      Print(Call(V("step"), <<>>)), Print(Call(V("step"), <<>>)), Print(Call(V("reset"), <<>>)), Print(Call(V("step"), <<>>)),
+      Print(S("end"))>>
+
 Prog ==
+    IF pos \in ClosKinds THEN ClosProg ELSE
     IF pos \in RecvKinds THEN RvProg ELSE
     IF pos \in DrvKinds THEN DrvProg ELSE
     IF pos \in ModKinds THEN ModProg ELSE
